@@ -73,7 +73,8 @@ Theorem C38_model_ok : forall c : case, inputs_ok c = true ->
   prop_ok c (model_origins c) (case_text c (N.to_nat (c_start c))) = true.
 Proof. exact model_ok. Qed.
 
-(** Meaning of the checker [okb] on the implementation's [line_origins()] / [text()]. *)
+(** Meaning of the checker [okb] on the implementation's [line_origins()] / [text()]
+    ([okb] additionally requires [strict_ok]: no unresolved origin names the start). *)
 Theorem C38_checker_spec : forall c : case, okb c = true ->
   length (case_origins c) = length (case_text c (N.to_nat (c_start c))) /\
   lines_of (c_text c) = case_text c (N.to_nat (c_start c)) /\
@@ -89,7 +90,48 @@ Theorem C38_checker_spec : forall c : case, okb c = true ->
        o_commit o = N.to_nat (c_start c) \/
        exists nd e, In nd (case_nodes c) /\ In e (snd nd) /\ is_missing e = true /\
                     fst e = o_commit o).
-Proof. intros c H. exact (prop_ok_spec c _ _ H). Qed.
+Proof.
+  intros c H. unfold okb in H. apply andb_true_iff in H. exact (prop_ok_spec c _ _ (proj1 H)).
+Qed.
+
+Theorem C38_checker_strict : forall c : case, okb c = true ->
+  forall o, In o (case_origins c) -> o_ok o = false -> o_commit o <> N.to_nat (c_start c).
+Proof.
+  intros c H o Hin Hk. unfold okb in H. apply andb_true_iff in H. destruct H as [_ H].
+  unfold strict_ok in H. rewrite forallb_forall in H. specialize (H o Hin).
+  rewrite Hk in H. cbn in H. apply negb_true_iff in H. now apply Nat.eqb_neq in H.
+Qed.
+
+(** KNOWN FINDING (class [known_class], "annotate-unresolved-root-counted-twice").  The
+    strict reading of the last clause — an unresolved origin always points OUTSIDE the
+    searched range — is false of the faithful model and of the code.  Witness (recorded from
+    the real [FileAnnotator], harness seed 1 index 55): p (omitted) has the children q, c2 and
+    c1 = merge(p, q); start = merge(c1, c2); domain = p..start.  The omitted parent p is
+    counted twice in [num_unresolved_roots], the loop of [process_commits] stops while q (in
+    the domain, and the commit that introduced line "q1") is still pending, and that line
+    keeps the initial placeholder [Err (start, 1)]. *)
+Definition C38_witness : case :=
+  mk_case [[]; [0]; [1]; [1]; [1; 2]; [4; 3]]%N
+    [hex ""; hex "6c300a6c310a6c320a6c330a"; hex "6c300a71310a6c320a6c330a";
+     hex "6c300a6c310a6332320a6c330a"; hex "6331300a71310a6c320a6c330a";
+     hex "6331300a71310a6332320a6c330a"]
+    5%N
+    [(5, [(4, 0); (3, 0)]); (4, [(1, 2); (2, 0)]); (3, [(1, 2)]); (2, [(1, 2)])]%N
+    [((5, 4), [(0, 0, 2); (3, 3, 1)]); ((5, 3), [(2, 2, 2)]); ((4, 1), [(2, 2, 2)]);
+     ((4, 2), [(1, 1, 3)]); ((3, 1), [(0, 0, 2); (3, 3, 1)]); ((2, 1), [(0, 0, 1); (2, 2, 2)])]%N
+    [(true, 4, 0); (false, 5, 1); (true, 3, 2); (false, 1, 3)]%N
+    (hex "6331300a71310a6332320a6c330a").
+Theorem C38_unresolved_outside_refuted :
+  inputs_ok C38_witness = true /\
+  model_origins C38_witness = case_origins C38_witness /\
+  nth_error (model_origins C38_witness) 1 = Some (mk_origin false 5 1) /\
+  strict_ok C38_witness (model_origins C38_witness) = false /\
+  known_class C38_witness = true /\
+  (* the line was introduced by commit 2 (q), a node of the searched graph: it is there at
+     line 1, and unmatched by q's diff with its only edge target *)
+  nth_error (case_text C38_witness 2) 1 = nth_error (case_text C38_witness 5) 1 /\
+  in_ranges 1 (case_matching C38_witness 2 1) = false.
+Proof. repeat split; vm_compute; reflexivity. Qed.
 
 (** The line-splitting of the hunks is an exact partition: the lines kept by the current
     commit are the unmatched ones, the lines handed to the parent are the matched ones,
